@@ -171,10 +171,27 @@ class Gen2(G.Gen):
     def lit_int(self):
         r = self.rng
         if r.random() < self.big_p:
+            # equal values must be frequent (each occurrence becomes its own int object at build
+            # time): reuse the previous big literal about every third time
+            last = getattr(self, "_last_big", None)
+            if last is not None and r.random() < 0.35:
+                return ("L", last)
             if self.near and r.random() < 0.6:
-                return ("L", r.choice(self.near))
-            return ("L", r.choice(BIG_LITS))
+                v = r.choice(self.near)
+            else:
+                v = r.choice(BIG_LITS)
+            self._last_big = v
+            return ("L", v)
         return G.Gen.lit_int(self)
+
+    def nary_int_list(self, d, lo=0):
+        r = self.rng
+        if r.random() < 0.08:
+            # constant-only operand lists over a two-value pool: duplicates and distinct lists alike
+            pool = [self.lit_int()[1], self.lit_int()[1]]
+            self.count("forced:const-pool")
+            return [("L", r.choice(pool)) for _ in range(r.randint(max(lo, 1), 3))]
+        return G.Gen.nary_int_list(self, d, lo)
 
 
 def gen_decls2(rng, nmax=4, big_p=0.45):
@@ -661,6 +678,34 @@ def session_problems(run):
         if j:
             out.append((f["step"], j[0], j[1]))
     return out
+
+
+def minimise_session(scripts, order, index, budget=60):
+    """the failing session alone if that still fails, then with every op dropped that the
+    failure does not need.  -> (scripts, order, index)"""
+    def fails(scs, od, ix):
+        try:
+            return bool(session_problems(replay_scripts(scs, od)[ix]))
+        except Exception:        # noqa  (a dropped declaration leaves dangling variable numbers)
+            return False
+    ops = scripts[index]
+    if fails([ops], [0] * len(ops), 0):
+        scripts, order, index = [ops], [0] * len(ops), 0
+    else:
+        return scripts, order, index
+    used = 0
+    progress = True
+    while progress and used < budget:
+        progress = False
+        for i in range(len(ops) - 1, -1, -1):
+            if ops[i]["op"] == "decl":
+                continue
+            cand = ops[:i] + ops[i + 1:]
+            used += 1
+            if cand and fails([cand], [0] * len(cand), 0):
+                ops, progress = cand, True
+                break
+    return [ops], [0] * len(ops), 0
 
 
 def show_script(ops):
